@@ -169,6 +169,8 @@ class CoopLock:
         return True
 
     def release(self):
+        if self.locked_by is None:
+            raise RuntimeError("release unlocked lock")  # what threading.Lock does
         self.locked_by = None
 
     def locked(self):
